@@ -8,6 +8,7 @@ package backoff
 import (
 	"math/rand"
 	"strings"
+	"sync"
 	"time"
 )
 
@@ -60,7 +61,10 @@ func LinearJitterBackoff(i int) time.Duration {
 	return jitter(i)
 }
 
-var random *rand.Rand
+var (
+	random   *rand.Rand
+	randomMu sync.Mutex
+)
 
 func init() {
 	random = rand.New(rand.NewSource(time.Now().UnixNano()))
@@ -70,7 +74,10 @@ func init() {
 func jitter(i int) time.Duration {
 	ms := i * 1000
 	maxJitter := ms/3 + 1
-	ms += random.Intn(2*maxJitter) - maxJitter
+	randomMu.Lock()
+	n := random.Intn(2 * maxJitter)
+	randomMu.Unlock()
+	ms += n - maxJitter
 	if ms <= 0 {
 		ms = 1
 	}
